@@ -8,6 +8,8 @@ import QuantityModel.Model.Term
 import QuantityModel.Model.Registry
 import QuantityModel.Model.Quantity
 import QuantityModel.Model.Catalogue
+import QuantityModel.Model.Money
+import QuantityModel.Gen.Iso4217
 import QuantityModel.Gen.Catalogue
 import QuantityModel.Gen.TempTable
 import QuantityModel.Ref.SIRef
@@ -17,6 +19,8 @@ open QM
 structure DState where
   env : Env := { atoms := [] }
   q : QState := { reg := RegState.init }
+  rates : List (String × Rate) := []
+  mcNames : List String := []          -- converter names, id = position
 
 def DState.init : DState := {}
 
@@ -509,8 +513,223 @@ def stepReg (st : DState) (args : List String) : Option (DState × String) :=
     | _, _ => some (st, bad)
   | _ => none
 
+/-! ### money -/
+
+def moneyCls? (r : RegState) : Option Nat := clsId? r "Money"
+
+def parseMinor? (s : String) : Option MinorArg :=
+  if s == "-" then some .none else if s == "x" then some .nonInt else s.toInt?.map .int
+
+def parseSf? (s : String) : Option SfArg :=
+  if s == "-" then some .none else if s == "bad" then some .invalid else
+  match s.splitOn ":" with
+  | [v, p] => match parseRat? v, p.toNat? with
+    | some v, some p => some (.dec v p)
+    | _, _ => none
+  | _ => none
+
+/-- `kind:value` tokens for unit multiples -/
+def parseUM? (s : String) : Option UMArg :=
+  match s.splitOn ":" with
+  | ["bad"] => some .invalid
+  | [_, v] => match parseRat? v with
+    | some q => some (if isFiniteDecimal q then .val q else .invalid)
+    | none => none
+  | _ => none
+
+def parseTA? (s : String) : Option TAArg :=
+  match s.splitOn ":" with
+  | ["none"] => some .typeError
+  | ["bad"] => some .valueError
+  | ["dec", v] => (parseRat? v).map .dec
+  | [_, v] => (parseRat? v).map .frac
+  | _ => none
+
+def showRate (r : RegState) (x : Rate) : String :=
+  s!"{usym r x.unitCur} {ratStr x.unitMultiple} {usym r x.termCur} {ratStr x.termAmount}"
+
+def showRateRes (r : RegState) (x : Except Err Rate) : String :=
+  match x with
+  | .ok v => "ok " ++ showRate r v
+  | .error e => "err " ++ e.name
+
+def parseDate? (s : String) : Option (Int × Int × Int) :=
+  match s.splitOn "-" with
+  | [y, m, d] => match y.toNat?, m.toNat?, d.toNat? with
+    | some y, some m, some d => some (y, m, d)
+    | _, _, _ => none
+  | _ => none
+
+def parseVSpell? (s : String) : Option VSpell :=
+  if s == "none" then some .none
+  else if s == "other" then some .other
+  else if s.startsWith "int:" then ((s.drop 4).toString.toInt?).map .int
+  else if s.startsWith "tuple:" then
+    match (s.drop 6).toString.splitOn "," with
+    | [y, m] => match y.toInt?, m.toInt? with
+      | some y, some m => some (.tuple y m)
+      | _, _ => none
+    | _ => none
+  else if s.startsWith "date:" then (parseDate? (s.drop 5).toString).map fun (y, m, d) => .date y m d
+  else if s.startsWith "str:" then some (.strParts ((s.drop 4).toString.splitOn "-"))
+  else none
+
+def parseSpecs? (r : RegState) (s : String) : Option (List RateSpec) :=
+  if s == "-" then some [] else
+  (s.splitOn ";").mapM fun sp =>
+    match sp.splitOn "," with
+    | [c, ta, um] => match unitId? r c, parseTA? ta, parseUM? um with
+      | some c, some ta, some um => some { termCur := c, termAmount := ta, unitMultiple := um }
+      | _, _, _ => none
+    | _ => none
+
+def mcId? (st : DState) (name : String) : Option Nat :=
+  (List.range st.mcNames.length).find? fun i => st.mcNames.getD i "" == name
+
+def stepMoney (st : DState) (args : List String) : Option (DState × String) :=
+  let q := st.q
+  let r := q.reg
+  let setReg := fun (r' : RegState) => { st with q := { q with reg := r' } }
+  match args with
+  | ["load_money"] =>
+    let (r', res) := r.declClass
+      { name := "Money", defineAs := none, refUnitSymbol := none, quantum := none, isMoney := true }
+    some (setReg r', showDecl r' res true)
+  | ["cur_new", sym, minor, sf] =>
+    match moneyCls? r, parseMinor? minor, parseSf? sf with
+    | some mc, some mi, some sfa =>
+      let (r', res) := r.newCurrency mc (optStr sym) mi sfa
+      some (setReg r', match res with
+        | .ok u => s!"ok {usym r' u} frac={showOptRat (r'.unit u).smallestFraction}"
+        | .error e => "err " ++ e.toErr.name)
+    | _, _, _ => some (st, bad)
+  | ["cur_reg", code] =>
+    match moneyCls? r with
+    | none => some (st, bad)
+    | some mc =>
+      let before := (r.cls mc).units.find? fun u => (r.unit u).symbol == code
+      let (r', res) := r.registerCurrency mc Gen.isoTable code
+      some (setReg r', match res with
+        | .ok u =>
+          let name := ((Gen.isoTable.find? fun e => e.1 == code).map fun e => e.2.1).getD "?"
+          s!"ok {usym r' u} name={name} frac={showOptRat (r'.unit u).smallestFraction} same={before == some u}"
+        | .error e => "err " ++ e.toErr.name)
+  | ["rate_new", name, uc, um, tc, ta, dflt] =>
+    match unitId? r uc, parseUM? um, unitId? r tc, parseTA? ta, Rounding.ofName? dflt with
+    | some uc, some um, some tc, some ta, some d =>
+      match mkRate d uc tc um ta with
+      | .ok x => some ({ st with rates := (name, x) :: st.rates },
+          s!"ok {showRate r x} rate={ratStr x.rate} inv={ratStr x.inverseRate}")
+      | .error e => some (st, "err " ++ e.name)
+    | _, _, _, _, _ => some (st, bad)
+  | ["rate_inv", a, name, dflt] =>
+    match st.rates.lookup a, Rounding.ofName? dflt with
+    | some x, some d =>
+      match x.inverted d with
+      | .ok y => some ({ st with rates := (name, y) :: st.rates }, "ok " ++ showRate r y)
+      | .error e => some (st, "err " ++ e.name)
+    | _, _ => some (st, bad)
+  | ["rate_op", op, a, b, name, dflt] =>
+    match st.rates.lookup a, st.rates.lookup b, Rounding.ofName? dflt with
+    | some x, some y, some d =>
+      match (if op == "mul" then x.mul d y else x.div d y) with
+      | .ok z => some ({ st with rates := (name, z) :: st.rates }, "ok " ++ showRate r z)
+      | .error e => some (st, "err " ++ e.name)
+    | _, _, _ => some (st, bad)
+  | ["rate_eq", a, b] =>
+    match st.rates.lookup a, st.rates.lookup b with
+    | some x, some y =>
+      some (st, s!"ok eq={x.quotation == y.quotation} hasheq={x.quotation == y.quotation}")
+    | _, _ => some (st, bad)
+  | ["money_rate", op, m, rn, dflt] =>
+    match st.rates.lookup rn, Rounding.ofName? dflt with
+    | some x, some d =>
+      match parseQty? r d m with
+      | some (.ok mq) =>
+        let isMoney := (r.cls (r.unitCls mq.unit)).isMoney
+        let res : Except Err Qty := match op with
+          | "mul" | "rmul" => if isMoney then q.moneyTimesRate d mq x else q.priceTimesRate d mq x false
+          | "div" => if isMoney then q.moneyDivRate d mq x else q.priceTimesRate d mq x true
+          | _ => .error .TypeError          -- rate / money
+        some (st, showQRes r res)
+      | some (.error e) => some (st, "err " ++ e.name)
+      | none => some (st, bad)
+    | _, _ => some (st, bad)
+  | ["mc_new", name, base] =>
+    match unitId? r base with
+    | some b =>
+      some ({ st with mcNames := st.mcNames ++ [name],
+                      q := { q with mconvs := q.mconvs ++ [{ base := b }] } }, "ok")
+    | none => some (st, bad)
+  | ["mc_today", dt] =>
+    (parseDate? dt).map fun t => ({ st with q := { q with today := t } }, "ok")
+  | ["mc_update", name, vs, specs, dflt] =>
+    match mcId? st name, parseVSpell? vs, parseSpecs? r specs, Rounding.ofName? dflt with
+    | some i, some v, some sp, some d =>
+      let (c', res) := (q.mconvs.getD i default).update d v sp
+      some ({ st with q := { q with mconvs := q.mconvs.set i c' } },
+        match res with | .ok _ => "ok" | .error e => "err " ++ e.name)
+    | _, _, _, _ => some (st, bad)
+  | ["mc_rate", name, u, t, dt, dflt] =>
+    match mcId? st name, unitId? r u, unitId? r t, Rounding.ofName? dflt,
+      (if dt == "-" then some q.today else parseDate? dt) with
+    | some i, some u, some t, some d, some (y, m, dd) =>
+      some (st, match (q.mconvs.getD i default).getRate d u t y m dd with
+        | .ok none => "ok none"
+        | .ok (some x) => "ok " ++ showRate r x
+        | .error e => "err " ++ e.name)
+    | _, _, _, _, _ => some (st, bad)
+  | ["mc_call", name, a, u, t, dt, dflt] =>
+    match mcId? st name, parseAmount? a, unitId? r u, unitId? r t, Rounding.ofName? dflt,
+      (if dt == "-" then some q.today else parseDate? dt) with
+    | some i, some a, some u, some t, some d, some (y, m, dd) =>
+      match r.mkQty d none a u with
+      | .error e => some (st, "err " ++ e.name)
+      | .ok mq =>
+        some (st, match (q.mconvs.getD i default).call d mq.amount u t y m dd with
+          | .ok x => "ok " ++ ratStr x
+          | .error e => "err " ++ e.name)
+    | _, _, _, _, _, _ => some (st, bad)
+  | ["mc_dump", name] =>
+    (mcId? st name).map fun i =>
+      let c := q.mconvs.getD i default
+      let kind := match c.kind with
+        | none => "unset" | some .none => "none" | some .year => "year"
+        | some .month => "month" | some .day => "day"
+      -- effective table: last write wins per key
+      let keys := c.rates.map (·.1)
+      let eff := c.rates.reverse.filter fun e =>
+        (c.rates.reverse.find? fun e' => e'.1 == e.1).map (·.2) == some e.2
+      let lines := (eff.map fun e =>
+        let v := match e.1.1 with
+          | .none => "none" | .year y => s!"{y}" | .month y m => s!"{y}-{m}"
+          | .day y m d => s!"{y}-{m}-{d}"
+        s!"{v}/{usym r e.1.2}={showRate r e.2}").eraseDups
+      let _ := keys
+      (st, s!"ok kind={kind} " ++ " ; ".intercalate (lines.toArray.qsort (· < ·)).toList)
+  | ["mc_stack", op, name] =>
+    match mcId? st name with
+    | none => some (st, bad)
+    | some i =>
+      match op with
+      | "reg" | "enter" =>
+        some ({ st with q := { q with mstack := q.mstack ++ [i] } }, "ok")
+      | _ =>   -- "unreg" | "exit" | "exit_exc"
+        let (stack', res) := stackRemove q.mstack i
+        some ({ st with q := { q with mstack := stack' } },
+          match res with | .ok _ => "ok" | .error e => "err " ++ e.name)
+  | ["mc_stack_show"] =>
+    some (st, "ok " ++ ",".intercalate (q.mstack.map fun i => st.mcNames.getD i "?"))
+  | _ => none
+
 def step (s : DState) (line : String) : DState × String :=
   let args := line.splitOn "\t"
+  -- the last argument of most operations is the configured default rounding
+  -- mode; code that is not handed a mode (rates built inside a money
+  -- converter during an implicit conversion) reads it from the state
+  let s := match args.getLast? >>= Rounding.ofName? with
+    | some d => { s with q := { s.q with dfltMode := d } }
+    | none => s
   match args with
   | ["reset"] => (DState.init, "ok reset")
   | ["numkind", _] => (s, "ok")   -- representation of numbers on the Python side only
@@ -522,6 +741,9 @@ def step (s : DState) (line : String) : DState × String :=
     | some r => r
     | none =>
     match stepReg s args with
+    | some r => r
+    | none =>
+    match stepMoney s args with
     | some r => r
     | none => (s, bad)
 
